@@ -34,4 +34,26 @@ CLAIMS = {
                 "swallow exceptions; a call is assumed able to raise unless "
                 "all resolved callees are straight-line total.",
     },
+    "C09": {
+        "level": "other",
+        "technique": "regular-language equivalence of regex automata "
+                     "(CPython first-match semantics) + decision-table "
+                     "cross-check against parsed reference implementations + "
+                     "exception-flow analysis",
+        "text": "Decides exactly (over newline-free strings) the accepted "
+                "language of basic-key, identifier, dotted-name, "
+                "dotted-suffix and ipaddr-or-hostname under CPython's "
+                "prefix-match-then-compare semantics, idempotence of the "
+                "lower-casing key normalisers, the decision tables of "
+                "boolean, range/port-number, suffix multipliers, "
+                "inet/socket address parsers and timedelta, the folded "
+                "constant tables, docs<->registry agreement and the escape "
+                "sets of all stock converters.  Does not decide int()/float() "
+                "parsing, inet_pton validity, arithmetic results or socket "
+                "constants.",
+        "note": _TB + "  Reference languages and reference implementations "
+                "(spec/ref_datatypes.py, parsed never run) are the oracle; "
+                "the regex engine's model of CPython matching is validated "
+                "against re in the thorough tier.",
+    },
 }
